@@ -1889,7 +1889,11 @@ class BreakAction(Action, HasDefaultDebugInfo):
         return True
 
     def get_target_override_targets(self):
-        return [self.refers_to.end_state]
+        # the actions which run after the break can themselves jump somewhere (e.g. a conditional break out of an outer loop)
+        targets = [self.refers_to.end_state]
+        for action in self.replacement_actions():
+            targets.extend(action.get_target_override_targets())
+        return targets
 
     def get_target_override_mode(self):
         return ActionOverrideMode.ALWAYS_GOTO_OTHER
